@@ -613,3 +613,8 @@ def main(argv):
     except subprocess.TimeoutExpired as e:
         log("INFRASTRUCTURE: timeout %s" % e)
         return 2
+    except Exception:
+        # a crash of the machinery itself is never a verdict about circus
+        import traceback
+        log("INFRASTRUCTURE: the check crashed\n" + traceback.format_exc())
+        return 2
